@@ -75,6 +75,27 @@ def fragment_parser_selection(repo):
             elif fl.is_local(f.id):
                 # a local that holds one of two parsers, chosen by a parameter
                 vals = [d.value for d in fl.defs if d.var == f.id and d.kind == "assign" and d.value is not None]
+                # a default and an override under the flag:  p = A;  if flag: p = B
+                if len(vals) == 2 and all(isinstance(v, ast.Name) for v in vals):
+                    ds = [d for d in fl.defs if d.var == f.id and d.kind == "assign" and d.value is not None]
+                    arms = [fl._if_arm_of(d) for d in ds]
+                    cond = [(d, a) for d, a in zip(ds, arms) if a]
+                    plain = [d for d, a in zip(ds, arms) if not a]
+                    if len(cond) == 1 and len(plain) == 1:
+                        d_c, (ifn, label) = cond[0]
+                        test, pol = ifn.ast.test, (label == "T")
+                        if isinstance(test, ast.UnaryOp) and isinstance(test.op, ast.Not):
+                            test, pol = test.operand, not pol
+                        if isinstance(test, ast.Name) and test.id in fi.params:
+                            k_flag, k_other = _dialect_kind(repo, fi.module, d_c.value.id), _dialect_kind(repo, fi.module, plain[0].value.id)
+                            kt, kf = (k_flag, k_other) if pol else (k_other, k_flag)
+                            text = "%s; if %s: %s" % (plain[0].value.id, ast.unparse(ifn.ast.test), d_c.value.id)
+                            if kt == "atom" and kf == "coarse":
+                                sites.append((call, nid, "selected", text))
+                            elif kt == "coarse" and kf == "atom":
+                                sites.append((call, nid, "swapped", text))
+                    if sites and sites[-1][0] is call:
+                        continue
                 for v in vals:
                     if isinstance(v, ast.Name) and len(vals) == 1 and _dialect_kind(repo, fi.module, v.id) is not None:
                         sites.append((call, nid, "single:" + _dialect_kind(repo, fi.module, v.id), v.id))
@@ -331,20 +352,8 @@ def ord_anchor_reset(repo, tier="quick"):
     fi = repo.function("read_cgsmiles:read_cgsmiles")
     fl, cfg = fi.flow, fi.cfg
     oid = "ORD.anchor-reset"
-    reps = []
-    for n in cfg.nodes:
-        if n.kind != "for":
-            continue
-        it = fl.canon(n.ast.iter, n.id)
-        c = is_call(it, "range")
-        if not c or not c[0]:
-            continue
-        hi = c[0][-1] if len(c[0]) <= 2 else c[0][1]
-        if hi[0] == "binop" and hi[1] == "-" and hi[3] == ("const", 1) and is_call(hi[2], "int"):
-            inner = [m for m in cfg.nodes if m.kind == "for" and m.id != n.id and m.id in cfg.loops.get(n.id, set()) and
-                     enclosing_loops(fi, m.id) and enclosing_loops(fi, m.id)[0].id == n.id]
-            if inner:
-                reps.append((n, inner[0]))
+    from .round7 import _repetition_loops
+    reps = _repetition_loops(fi)
     need(reps, "anchor vanished: no repetition loop `for _ in range(0, int(<multiplier>) - 1)` over the branch recipes in read_cgsmiles", fi)
     obs = []
     for rep, inner in reps:
